@@ -30,7 +30,8 @@ def find_scan(ctx, R):
             if tt is not None and R.body_of_callee(tt.get("callee")) is read:
                 cands.append((bi, t, cb, ai))
     if len(cands) != 1:
-        raise RoleLost("scan: callee of the sector routine fed by a hypercube read (found %d)" % len(cands))
+        from ..roles import calls_body
+        raise RoleLost("scan: callee of the sector routine fed by a hypercube read (found %d)" % len(cands), wanted=calls_body(R, read))
     return sector, cands[0]
 
 
@@ -77,7 +78,8 @@ def _find_sector_by_position(ctx, R):
     # two expected: sector and gauss; sector's result flows into the matrix builder (x parameters) — pick by order w.r.t. quantile call
     qsites = [bi for bi, t, cb in R.local_callees(s) if cb is q]
     if len(qsites) != 1:
-        raise RoleLost("quantile call in sample")
+        from ..roles import calls_body
+        raise RoleLost("quantile call in sample", wanted=calls_body(R, q))
     idom = cfg.dominators(s)
     before = [c for c in cands if cfg.dominates(idom, c[0], qsites[0])]
     if len(before) != 1:
